@@ -1,1 +1,261 @@
-fn main() { println!("ok"); }
+//! qverif-driver: runs the *real* qrlew code concretely on JSON jobs (one per stdin line) and prints one JSON
+//! answer per line. Every job runs under catch_unwind; a panic is reported as {"panic": msg}.
+mod codec;
+mod rel;
+
+use codec::*;
+use qrlew::data_type::function::Function as _;
+use qrlew::data_type::injection::Injection as _;
+use qrlew::data_type::injection::InjectInto as _;
+use qrlew::data_type::{value::Value, value::Variant as _, DataType, DataTyped, Variant as _};
+use qrlew::expr::implementation;
+use qrlew::hierarchy::Hierarchy;
+use serde_json::{json, Value as J};
+use std::io::{BufRead, Write};
+use std::panic::{catch_unwind, AssertUnwindSafe};
+use std::sync::Mutex;
+
+static LAST_PANIC: Mutex<String> = Mutex::new(String::new());
+
+fn res_dt<E: std::fmt::Display>(r: Result<DataType, E>) -> J {
+    match r {
+        Ok(t) => json!({"ok": dt_to_json(&t), "s": t.to_string()}),
+        Err(e) => json!({"err": e.to_string()}),
+    }
+}
+fn res_val<E: std::fmt::Display>(r: Result<Value, E>) -> J {
+    match r {
+        Ok(t) => json!({"ok": value_to_json(&t), "s": t.to_string()}),
+        Err(e) => json!({"err": e.to_string()}),
+    }
+}
+
+/// run a closure under catch_unwind, turning a panic into {"panic": msg}
+pub fn guarded<F: FnOnce() -> J>(f: F) -> J {
+    match catch_unwind(AssertUnwindSafe(f)) {
+        Ok(j) => j,
+        Err(_) => json!({"panic": LAST_PANIC.lock().unwrap().clone()}),
+    }
+}
+
+fn dts(j: &J) -> R<Vec<DataType>> {
+    j.as_array().ok_or("expected array of types")?.iter().map(json_to_dt).collect()
+}
+fn vals(j: &J) -> R<Vec<Value>> {
+    j.as_array().ok_or("expected array of values")?.iter().map(json_to_value).collect()
+}
+
+fn run(job: &J) -> R<J> {
+    let op = job["op"].as_str().ok_or("no op")?;
+    Ok(match op {
+        "ping" => json!({"ok": true}),
+        // ---------------------------------------------------------------- functions
+        "fn_list" => {
+            let l: Vec<J> = FUNCTIONS
+                .iter()
+                .map(|f| {
+                    let (name, _) = function_name(f);
+                    let info = guarded(|| {
+                        let imp = implementation::function(*f);
+                        json!({"domain": dt_to_json(&imp.domain()), "co_domain": dt_to_json(&imp.co_domain()),
+                               "domain_s": imp.domain().to_string(), "co_domain_s": imp.co_domain().to_string()})
+                    });
+                    json!({"f": name, "is_bijection": f.is_bijection(), "is_unique": f.is_unique(), "arity": format!("{:?}", f.arity()), "info": info})
+                })
+                .collect();
+            json!({"ok": l})
+        }
+        "fn_super_image" => {
+            let f = function_from(job["f"].as_str().ok_or("f")?, job["n"].as_u64().map(|x| x as usize))?;
+            let a = dts(&job["args"])?;
+            guarded(|| res_dt(f.super_image(&a)))
+        }
+        "fn_value" => {
+            let f = function_from(job["f"].as_str().ok_or("f")?, job["n"].as_u64().map(|x| x as usize))?;
+            let a = vals(&job["args"])?;
+            guarded(|| res_val(f.value(&a)))
+        }
+        "agg_super_image" => {
+            let a = aggregate_from(job["a"].as_str().ok_or("a")?)?;
+            let t = json_to_dt(&job["dt"])?;
+            guarded(|| res_dt(a.super_image(&t)))
+        }
+        "agg_value" => {
+            let a = aggregate_from(job["a"].as_str().ok_or("a")?)?;
+            let v = json_to_value(&job["v"])?;
+            guarded(|| res_val(a.value(&v)))
+        }
+        "expr_super_image" => {
+            let e = json_to_expr(&job["expr"])?;
+            let t = json_to_dt(&job["dt"])?;
+            guarded(|| res_dt(e.super_image(&t)))
+        }
+        "expr_value" => {
+            let e = json_to_expr(&job["expr"])?;
+            let v = json_to_value(&job["v"])?;
+            guarded(|| res_val(e.value(&v)))
+        }
+        "expr_show" => {
+            let e = json_to_expr(&job["expr"])?;
+            json!({"ok": e.to_string()})
+        }
+        // ---------------------------------------------------------------- types
+        "inject" => {
+            // {from: A, to: B, values: [...]}: converted type and converted values through the real injection
+            let a = json_to_dt(&job["from"])?;
+            let b = json_to_dt(&job["to"])?;
+            let vs = if job["values"].is_null() { vec![] } else { vals(&job["values"])? };
+            let image = guarded(|| res_dt(a.into_data_type(&b)));
+            let variant = guarded(|| res_dt(a.into_variant(&b)));
+            let values: Vec<J> = vs
+                .iter()
+                .map(|v| {
+                    guarded(|| match a.inject_into(&b) {
+                        Ok(inj) => res_val(inj.value(v)),
+                        Err(e) => json!({"err": format!("no injection: {e}")}),
+                    })
+                })
+                .collect();
+            json!({"image": image, "variant": variant, "values": values})
+        }
+        "inject_direct" => {
+            // the Base<A,B> injection built directly (public builder injection::From(..).into(..)); reaches pairs that
+            // Base<A,DataType> does not route to (Integer->Boolean, Float->Integer)
+            let a = json_to_dt(&job["from"])?;
+            let b = json_to_dt(&job["to"])?;
+            let vs = if job["values"].is_null() { vec![] } else { vals(&job["values"])? };
+            macro_rules! direct {
+                ($dom:expr, $cod:expr, $wrap:path, $unwrap:path) => {{
+                    let image = guarded(|| match qrlew::data_type::injection::From($dom.clone()).into($cod.clone()) {
+                        Ok(inj) => res_dt(inj.super_image(&$dom).map(DataType::from)),
+                        Err(e) => json!({"err": format!("no injection: {e}")}),
+                    });
+                    let values: Vec<J> = vs
+                        .iter()
+                        .map(|v| {
+                            guarded(|| match (qrlew::data_type::injection::From($dom.clone()).into($cod.clone()), v) {
+                                (Ok(inj), $unwrap(x)) => res_val(inj.value(x).map(Value::from)),
+                                (Err(e), _) => json!({"err": format!("no injection: {e}")}),
+                                _ => json!({"err": "value of the wrong variant"}),
+                            })
+                        })
+                        .collect();
+                    json!({"image": image, "values": values})
+                }};
+            }
+            match (&a, &b) {
+                (DataType::Integer(d), DataType::Boolean(c)) => direct!(d, c, DataType::Boolean, Value::Integer),
+                (DataType::Integer(d), DataType::Float(c)) => direct!(d, c, DataType::Float, Value::Integer),
+                (DataType::Boolean(d), DataType::Integer(c)) => direct!(d, c, DataType::Integer, Value::Boolean),
+                (DataType::Float(d), DataType::Integer(c)) => direct!(d, c, DataType::Integer, Value::Float),
+                (DataType::Date(d), DataType::DateTime(c)) => direct!(d, c, DataType::DateTime, Value::Date),
+                (DataType::DateTime(d), DataType::Date(c)) => direct!(d, c, DataType::Date, Value::DateTime),
+                _ => json!({"image": {"err": "no direct injection for this pair"}, "values": []}),
+            }
+        }
+        "as_data_type" => {
+            let v = json_to_value(&job["v"])?;
+            let b = json_to_dt(&job["to"])?;
+            guarded(|| res_val(v.as_data_type(&b)))
+        }
+        "lattice" => {
+            let a = json_to_dt(&job["a"])?;
+            let b = json_to_dt(&job["b"])?;
+            json!({
+                "a_sub_b": guarded(|| json!(a.is_subset_of(&b))),
+                "b_sub_a": guarded(|| json!(b.is_subset_of(&a))),
+                "union": guarded(|| res_dt(a.super_union(&b))),
+                "inter": guarded(|| res_dt(a.super_intersection(&b))),
+            })
+        }
+        "contains" => {
+            let a = json_to_dt(&job["dt"])?;
+            let vs = vals(&job["values"])?;
+            json!({"ok": vs.iter().map(|v| guarded(|| json!(a.contains(v)))).collect::<Vec<_>>()})
+        }
+        "value_type" => {
+            let v = json_to_value(&job["v"])?;
+            guarded(|| {
+                let t = v.data_type();
+                json!({"ok": dt_to_json(&t), "contains": t.contains(&v)})
+            })
+        }
+        "filter" => {
+            let t = json_to_dt(&job["dt"])?;
+            let p = json_to_expr(&job["pred"])?;
+            guarded(|| {
+                let r = t.filter(&p);
+                json!({"ok": dt_to_json(&r), "s": r.to_string()})
+            })
+        }
+        // ---------------------------------------------------------------- hierarchy
+        "hierarchy_get" => {
+            let entries: Vec<Vec<String>> = job["entries"]
+                .as_array()
+                .ok_or("entries")?
+                .iter()
+                .map(|p| p.as_array().map(|a| a.iter().map(|s| s.as_str().unwrap_or("").to_string()).collect()).unwrap_or_default())
+                .collect();
+            let h: Hierarchy<usize> = entries.iter().cloned().enumerate().map(|(i, p)| (p, i)).collect();
+            let lookups = job["lookups"].as_array().ok_or("lookups")?;
+            let out: Vec<J> = lookups
+                .iter()
+                .map(|p| {
+                    let path: Vec<String> = p.as_array().map(|a| a.iter().map(|s| s.as_str().unwrap_or("").to_string()).collect()).unwrap_or_default();
+                    guarded(|| match h.get_key_value(&path) {
+                        Some((k, v)) => json!({"found": v, "key": k, "get": h.get(&path)}),
+                        None => json!({"found": J::Null, "get": h.get(&path)}),
+                    })
+                })
+                .collect();
+            json!({"ok": out})
+        }
+        _ => match rel::run(op, job) {
+            Some(r) => r?,
+            None => return Err(format!("unknown op {op}")),
+        },
+    })
+}
+
+fn main() {
+    std::panic::set_hook(Box::new(|info| {
+        let msg = if let Some(s) = info.payload().downcast_ref::<&str>() {
+            s.to_string()
+        } else if let Some(s) = info.payload().downcast_ref::<String>() {
+            s.clone()
+        } else {
+            "panic".to_string()
+        };
+        let loc = info.location().map(|l| format!(" at {}:{}", l.file(), l.line())).unwrap_or_default();
+        *LAST_PANIC.lock().unwrap() = format!("{msg}{loc}");
+    }));
+    let stdin = std::io::stdin();
+    let stdout = std::io::stdout();
+    for line in stdin.lock().lines() {
+        let line = match line {
+            Ok(l) => l,
+            Err(_) => break,
+        };
+        if line.trim().is_empty() {
+            continue;
+        }
+        let out = match serde_json::from_str::<J>(&line) {
+            Ok(job) => {
+                let id = job["id"].clone();
+                let mut r = match catch_unwind(AssertUnwindSafe(|| run(&job))) {
+                    Ok(Ok(j)) => j,
+                    Ok(Err(e)) => json!({"bad_job": e}),
+                    Err(_) => json!({"panic": LAST_PANIC.lock().unwrap().clone()}),
+                };
+                if let J::Object(m) = &mut r {
+                    m.insert("id".into(), id);
+                }
+                r
+            }
+            Err(e) => json!({"bad_job": format!("json: {e}")}),
+        };
+        let mut o = stdout.lock();
+        let _ = writeln!(o, "{}", out);
+        let _ = o.flush();
+    }
+}
